@@ -157,10 +157,10 @@ Qed.
 
 
 (* a learnt clause enters the database *)
-Lemma step_add_learnt (st1 : sst) db0 tr conf r ps2 units2 act2 :
+Lemma step_add_learnt (st1 : sst) db0 tr conf r ps2 units2 act2 born2 :
   s_db st1 = db0 -> analyze db0 tr conf = Some r ->
   Step st1 (mkS (s_enc st1) (s_db st1 ++ [mkCl (KLearnt (r_why r)) (r_learnt r)]) ps2 (s_asserts st1) units2 act2
-                (s_start st1) (s_log st1) (s_order st1) (s_ok st1 && analysis_ok db0 tr conf r)).
+                (s_start st1) (s_log st1) (s_order st1) (s_ok st1 && analysis_ok db0 tr conf r) born2).
 Proof.
   intros Edb Han. split; simpl.
   - intro H. apply andb_true_iff in H. apply H.
@@ -186,7 +186,7 @@ Proof.
   - simpl in H.
     match type of H with
     | context [s_undo_until ?X ?T] =>
-        assert (H12 : Step st1 X) by (rewrite <- El; apply (step_add_learnt st1 (s_db st) _ conf r _ _ _ Edb Han));
+        assert (H12 : Step st1 X) by (rewrite <- El; apply (step_add_learnt st1 (s_db st) _ conf r _ _ _ _ Edb Han));
         pose proof (step_undo_until X T) as H23
     end.
     match type of H with
@@ -198,7 +198,7 @@ Proof.
     destruct (lit_eqb f last) eqn:Efl; cbn [negb] in H; [discriminate|].
     match type of H with
     | context [s_undo_until ?X ?T] =>
-        assert (H12 : Step st1 X) by (rewrite <- El; apply (step_add_learnt st1 (s_db st) _ conf r _ _ _ Edb Han));
+        assert (H12 : Step st1 X) by (rewrite <- El; apply (step_add_learnt st1 (s_db st) _ conf r _ _ _ _ Edb Han));
         pose proof (step_undo_until X T) as H23
     end.
     match type of H with
@@ -366,7 +366,7 @@ Proof.
   pose proof (solve_inv U P HW A a_ge a_conflict fuel efuel a0 order _ _ Hsolve) as HS.
   (* the final state is reached by steps from the initial one and carries a witness *)
   unfold solve in Hsolve.
-  set (st0 := mkS (estate0 cache0) [mkCl KRoot [(VRoot, true)]] ps0 [] [] a0 0 [] order true) in *.
+  set (st0 := mkS (estate0 cache0) [mkCl KRoot [(VRoot, true)]] ps0 [] [] a0 0 [] order true []) in *.
   assert (H0 : SInv U P A st0).
   { constructor; simpl; [apply einv0 | reflexivity | apply winv0 | reflexivity]. }
   assert (Hale0 : ALE (s_db st0)).
